@@ -785,6 +785,8 @@ impl<TStdlib: Stdlib, TStdIn: Input, TStdOut: Printer, TLpt1: Printer>
         self.print_state_stack.clear();
         self.var_path_stack.clear();
         self.by_ref_stack.clear();
+        // the results that abandoned calls were waiting to pick up
+        self.function_result.clear();
     }
 
     fn push_nesting_base(&mut self, kind: NestingKind) {
